@@ -767,6 +767,85 @@ Section Cells.
     rewrite ?app_length. cbn [List.length]. lia.
   Qed.
 
+  (* an entry of a FILL array: a plain number (1 value) or nR with n >= 1 (n values) *)
+  Inductive arr_tok : string -> nat -> Prop :=
+  | at_plain t : plain_value t -> arr_tok t 1
+  | at_rep t body n : lower t = (body ++ "r")%string -> count_of body n -> (1 <= n)%nat -> arr_tok t n.
+
+  Lemma expand_loop_arr u : forall cs more v acc consumed size,
+    Forall2 arr_tok u cs ->
+    (Z.of_nat (List.length (v :: acc) + list_sum cs) = size)%Z ->
+    exists vals,
+      expand_loop Sc P (u ++ more) O (Some size) (v :: acc) consumed
+      = Ok (vals ++ v :: acc, (consumed + List.length u)%nat) /\ List.length vals = list_sum cs.
+  Proof.
+    induction u as [|t r IH]; intros cs more v acc consumed size Hu Hsz.
+    - destruct cs as [|c0 cs0]; [|inversion Hu]. exists []. cbn [app List.length list_sum fold_right]. replace (consumed + 0)%nat with consumed by lia. split; [|reflexivity].
+      destruct more as [|m0 more']; [reflexivity|]. cbn [expand_loop reached].
+      replace (Z.of_nat (List.length (v :: acc)) <? size)%Z with false; [reflexivity|].
+      symmetry. apply Z.ltb_ge. cbn [list_sum fold_right List.length] in Hsz |- *. lia.
+    - destruct cs as [|c cs']; [inversion Hu|]. assert (arr_tok t c /\ Forall2 arr_tok r cs') as [Ht Hr] by (inversion Hu; auto).
+      rewrite <- Hsz. cbn [app expand_loop reached].
+      assert (1 <= c)%nat as Hc by (inversion Ht; subst; lia).
+      replace (Z.of_nat (List.length (v :: acc)) <? Z.of_nat (List.length (v :: acc) + list_sum (c :: cs')))%Z with true
+        by (symmetry; apply Z.ltb_lt; unfold list_sum; cbn [fold_right]; lia).
+      cbn [negb]. destruct Ht as [t [[x Hx] Hp]|t body n Hl Hcnt Hn].
+      + rewrite (step_val Sc P _ _ _ _ Hx Hp). cbn [bind].
+        destruct (IH cs' more (Some x) (v :: acc) (consumed + 1 + 0)%nat
+                     (Z.of_nat (List.length (v :: acc) + list_sum (1%nat :: cs'))) Hr) as (vals & Hv & Hlen).
+        { unfold list_sum in *; cbn [List.length fold_right] in *; lia. }
+        exists (vals ++ [Some x]). rewrite Hv. split.
+        * rewrite <- app_assoc. cbn [app List.length]. f_equal. f_equal. lia.
+        * rewrite app_length, Hlen. unfold list_sum in *; cbn [List.length fold_right] in *; lia.
+      + rewrite Hl, (step_rep Sc P _ _ _ _ _ Hcnt). cbn [bind].
+        destruct n as [|c']; [lia|]. cbn [repeat app].
+        destruct (IH cs' more v (repeat v c' ++ v :: acc) (consumed + 1 + 0)%nat
+                     (Z.of_nat (List.length (v :: acc) + list_sum (S c' :: cs'))) Hr) as (vals & Hv & Hlen).
+        { unfold list_sum; cbn [List.length fold_right]; rewrite app_length, repeat_length; cbn [List.length]; lia. }
+        exists (vals ++ v :: repeat v c'). rewrite Hv. split.
+        * rewrite <- app_assoc. cbn [app List.length]. f_equal. f_equal. lia.
+        * rewrite app_length, Hlen. unfold list_sum in *; cbn [List.length fold_right] in *; rewrite repeat_length; lia.
+  Qed.
+
+  (* FILL = ranges, a first plain universe number, further entries (plain or nR)
+     that fill the ranges exactly, numeric parameters: read locally *)
+  Lemma fillarr_local_rep t r0 rs u0 us cs params bnds fp :
+    String.prefix "imp" t = false -> contains_sub "fill" t = true ->
+    forallb (contains_char ":") (r0 :: rs) = true -> parse_ranges (r0 :: rs) = Ok bnds ->
+    contains_char ":" u0 = false -> plain_value u0 -> Forall2 arr_tok us cs ->
+    Z.of_nat (1 + list_sum cs) = bounds_size bnds ->
+    forallb is_numstart params = true ->
+    fill_params Sc P false (contains_char "*" t) params = Ok fp ->
+    forall rest, hd_not_num rest -> forall k,
+      exists k', kw_step Sc P t (((r0 :: rs) ++ (u0 :: us) ++ params) ++ rest) k
+                 = Ok (k', List.length ((r0 :: rs) ++ (u0 :: us) ++ params)).
+  Proof.
+    intros H1 H2 Hrs Hpr Hu0 [[x Hx] Hpl] Hus Hsz Hp Hfp rest Hr k. unfold kw_step. rewrite H1, H2.
+    unfold parse_fill.
+    replace (((r0 :: rs) ++ (u0 :: us) ++ params) ++ rest)
+      with ((r0 :: rs) ++ ((u0 :: us) ++ (params ++ rest))) by (rewrite <- !app_assoc; reflexivity).
+    assert (contains_char ":" r0 = true) as Hr0 by (cbn in Hrs; apply andb_true_iff in Hrs; exact (proj1 Hrs)).
+    cbn [app]. rewrite Hr0.
+    change (r0 :: rs ++ u0 :: us ++ params ++ rest) with ((r0 :: rs) ++ (u0 :: us ++ params ++ rest)).
+    rewrite (take_ranges_app (r0 :: rs) (u0 :: us ++ params ++ rest) Hrs Hu0).
+    rewrite skipn_app_len', Hpr. cbn [bind].
+    unfold expand. cbn [expand_loop reached List.length].
+    replace (Z.of_nat 0 <? bounds_size bnds)%Z with true by (symmetry; apply Z.ltb_lt; lia).
+    cbn [negb]. rewrite (step_val Sc P _ _ _ _ Hx Hpl). cbn [bind].
+    destruct (expand_loop_arr us cs (params ++ rest) (Some x) [] (0 + 1 + 0)%nat (bounds_size bnds) Hus) as (vals & Hv & Hl).
+    { cbn [List.length]. rewrite <- Hsz. reflexivity. }
+    rewrite Hv. cbn [bind]. cbv beta iota.
+    replace (Z.of_nat (List.length (vals ++ [Some x])) =? bounds_size bnds)%Z with true
+      by (symmetry; apply Z.eqb_eq; rewrite app_length, Hl; cbn [List.length]; lia).
+    cbn [bind]. cbv beta iota.
+    replace (Nat.eqb (0 + 1 + 0 + List.length us) 0) with false by reflexivity.
+    replace (0 + 1 + 0 + List.length us)%nat with (List.length (u0 :: us)) by (cbn [List.length]; lia).
+    change (u0 :: us ++ params ++ rest) with ((u0 :: us) ++ (params ++ rest)).
+    rewrite skipn_app_len', (take_numeric_app params rest Hp Hr), Hfp. cbn [bind].
+    eexists. f_equal. f_equal. change (r0 :: rs ++ u0 :: us ++ params) with ((r0 :: rs) ++ (u0 :: us) ++ params).
+    rewrite ?app_length. cbn [List.length]. rewrite ?app_length. lia.
+  Qed.
+
   (* [loc_imps toks es]: as [opt_imps], with every keyword read locally: either
      it takes its arguments whatever follows ([li_any]: inert words, U, RHO,
      MAT, LAT), or it reads numbers up to the next token that does not start
